@@ -135,7 +135,7 @@ class Model:
         as source text; nothing is written or executed).  reuse: a model of the same root whose parsed
         trees are shared for files without an override."""
         self.root = root or repo_root()
-        self.overrides = dict(overrides or {})
+        self.src_overrides = dict(overrides or {})
         self._reuse = reuse
         self.modules: Dict[str, ModuleInfo] = {}
         self.classes: Dict[str, ClassInfo] = {}
@@ -163,10 +163,10 @@ class Model:
                 modname = rel[:-3].replace(os.sep, ".")
                 if modname.endswith(".__init__"):
                     modname = modname[: -len(".__init__")]
-                if rel in self.overrides:
-                    src = self.overrides[rel]
+                if rel in self.src_overrides:
+                    src = self.src_overrides[rel]
                     tree = ast.parse(src, filename=path)
-                elif self._reuse is not None and modname in self._reuse.modules and rel not in self._reuse.overrides:
+                elif self._reuse is not None and modname in self._reuse.modules and rel not in self._reuse.src_overrides:
                     old = self._reuse.modules[modname]
                     src, tree = old.src, old.tree
                 else:
@@ -248,8 +248,8 @@ class Model:
 
     def read_text(self, rel: str) -> str:
         """Text of a repository file (honours overrides)."""
-        if rel in self.overrides:
-            return self.overrides[rel]
+        if rel in self.src_overrides:
+            return self.src_overrides[rel]
         path = os.path.join(self.root, rel)
         if not os.path.exists(path):
             raise AnchorMissing(f"file {rel} not found")
